@@ -23,6 +23,7 @@ for sid in sorted(os.listdir(os.path.join(HERE, "seeded"))):
                            cwd=tmp, capture_output=True, text=True)
         if p.returncode != 0:
             rows.append((sid, prop, "PATCH DOES NOT APPLY (tree changed?)"))
+            print(*rows[-1], flush=True)
             continue
         env = dict(os.environ, VERIF_REPO=tmp, VERIF_REPLAY_DIR=os.path.join(tmp, "replays"))
         c = subprocess.run([os.path.join(HERE, "check"), prop, "--no-evidence", "--runs", "6400",
